@@ -3,6 +3,7 @@ import FunModel.Drv.C12
 import FunModel.Drv.C19
 import FunModel.Drv.C16
 import FunModel.Drv.C18
+import FunModel.Drv.C02
 
 /-! Line-protocol driver: `driver <property>` reads one S-expression per line on stdin and prints
     the model's observation for it on one line. Core Lean only (no Mathlib) so it links. -/
@@ -13,6 +14,7 @@ def handlerFor : String → Option (Sexp → String)
   | "C19" => some DrvC19.handle
   | "C16" => some DrvC16.handle
   | "C18" => some DrvC18.handle
+  | "C02" => some DrvC02.handle
   | "C17" => some DrvC16.handle
   | _ => none
 
